@@ -169,7 +169,7 @@ class PropertyCall:
         self.q, self.o = q, o
 
 
-SPEC_NAMES = {'TXT', 'ALL', 'SAME_ITEMS', 'ENDS_WITH', 'STACKID', 'MATCH', 'NOMATCH', 'UB', 'SORTED', 'SUFFIX', 'FRESH', 'ALLWS', 'NEXTBY_PRED'}
+SPEC_NAMES = {'TXT', 'ALL', 'SAME_ITEMS', 'ENDS_WITH', 'STACKID', 'REACHED_LOOP', 'MATCH', 'NOMATCH', 'UB', 'SORTED', 'SUFFIX', 'FRESH', 'ALLWS', 'NEXTBY_PRED'}
 
 
 class ClosureEnv:
@@ -1172,6 +1172,7 @@ class Exec:
                         rr = self.eval(node.elt, s1)
                         if len(rr) != 1:
                             raise OutsideSubset('forking generator element')
+                        s1 = rr[0][0]       # (an inlined helper returns in a state of its own)
                         vals.append(rr[0][1])
                     if saved is UNBOUND:
                         s1.env.pop(name, None)
@@ -1219,7 +1220,7 @@ class Exec:
             r = self._allany_concrete(is_all, gen.data[0], st)
             if r is not None:
                 return r
-            return [(st, SBool(fresh('all' if is_all else 'any', z3.BoolSort())))]
+            return [(st, SBool(fresh('UNEVALUATED_all' if is_all else 'UNEVALUATED_any', z3.BoolSort())))]
         if isinstance(gen, tuple):
             parts = [self.truth(x, st) for x in gen]
             return [(st, self.wrapb(self.conj(parts) if is_all else self.disj(parts)))]
@@ -1281,6 +1282,10 @@ class Exec:
             if isinstance(v, Rec) and v.kind == 'istack':
                 return [(st, SInt(z3.IntVal(st.objs[v.oid]['vid'])))]
             raise OutsideSubset('STACKID of %r' % (v,))
+        if name == 'REACHED_LOOP':
+            # the state went through the head of loop <ordinal> of the verified function (it did not leave before)
+            top = getattr(self, 'top_fn', None) or self.fn
+            return [(st, (top, str(args[0])) in st.ghost.get('__loops_reached__', frozenset()))]
         raise OutsideSubset('spec function %s' % name)
 
     def call(self, f, args, kw, st, node=None):
@@ -1403,6 +1408,9 @@ class Exec:
             self.__dict__.setdefault('_sdict_shapes', {})[o.oid] = v
             return [st]
         if isinstance(o, dict) and not isinstance(i, Sym):
+            if any(o is g for g in self.genv.values()):
+                # (a module-level dict is state shared by every call and every path: not modelled)
+                raise OutsideSubset('store into a module-level dict (global state)')
             # dicts are executor-side mutable values: copy-on-write is handled by keeping them in objs
             o[i] = v
             return [st]
@@ -1618,7 +1626,9 @@ class Exec:
         return names
 
     def s_FunctionDef(self, stmt, st):
-        st.env[stmt.name] = Func(self.fn + '.<locals>.' + stmt.name, node=stmt, closure=ClosureEnv(st.env))
+        f = Func(self.fn + '.<locals>.' + stmt.name, node=stmt, closure=ClosureEnv(st.env))
+        f.closure.env[stmt.name] = f      # (a nested function sees its own name: recursion)
+        st.env[stmt.name] = f
         return [(st, Outcome.NEXT, None)]
 
     def s_With(self, stmt, st):
